@@ -25,7 +25,7 @@ META = {
             "both runs are the explicit hypothesis Safe (heap below 2^63 cells, WFHeap/RootsOk of the erased heap, kind "
             "disciplines Plain and NoIofArg, bp-relative reads at or below sp); reflexivity is proved (sim_refl). Hence "
             "the *_partial names; sliced_value_eq_uninterrupted_partial is the closed-form corollary (same HALT, equal "
-            "datum read from acc). ROUND 4 (Safe is now an invariant theorem): sliced_value_eq_uninterrupted / sliced_error_eq_uninterrupted / sliced_value_eq_uninterrupted_eval restate T13.3 WITHOUT Safe. Safe m s0 is proved (Lemmas/GoodMain.safe_of_good) from GoodI of the INITIAL state only (WFHeap of the erased heap, Plain, code discipline of every lambda object LamOk = NoIofArg + MOV/MOVIMM never address a heap cell through a Ptr operand and load values, environment discipline EnvOk, allocated roots, a value in acc) by good_step (run_one preserves GoodI: heap clauses one lemma per opcode, Lemmas/GoodStep{A,B,C}.lean over the T03.3 lift Lemmas/GoodAlloc.lean; roots clause read off step_sim applied to the state and itself) and good_gc (run_gc preserves GoodI), and prepare_goodI (the state prepare_eval produces from an idle GoodI machine is GoodI). REMAINING explicit hypotheses: ExtLaws and ExtGood (laws of the four non-modelled parameters for the simulation / for the invariant), CompGood (same for the compiler in prepare_eval), SizeBounded (every reachable heap has at most 2^62 cells: the one size hypothesis, a physical fact, not an invariant), StackDiscAlong (frame discipline of the current instruction in every reachable state: bp-relative reads at or below sp, complete frame at RET/TCALL, and the stack cells an instruction consumes as values are values not frame-header cells; a consequence of WF-stack once the verifier types bp-relative sources and temporaries - not yet connected). Plain is NOT an invariant of run_one over arbitrary bytecode/stacks (CONS of a frame-header cell, MOV through a Ptr operand break it on the model and on the real VM alike): hence the code discipline in GoodI (checked on every real lambda by the safe-side-conditions stream of C03) and StackDiscAlong. The _partial theorems are kept.",
+            "datum read from acc). ROUND 4 (Safe is now an invariant theorem): sliced_value_eq_uninterrupted / sliced_error_eq_uninterrupted / sliced_value_eq_uninterrupted_eval restate T13.3 WITHOUT Safe. Safe m s0 is proved (Lemmas/GoodMain.safe_of_good) from GoodI of the INITIAL state only (WFHeap of the erased heap, Plain, code discipline of every lambda object LamOk = NoIofArg + MOV/MOVIMM never address a heap cell through a Ptr operand and load values, environment discipline EnvOk, allocated roots, a value in acc) by good_step (run_one preserves GoodI: heap clauses one lemma per opcode, Lemmas/GoodStep{A,B,C}.lean over the T03.3 lift Lemmas/GoodAlloc.lean; roots clause read off step_sim applied to the state and itself) and good_gc (run_gc preserves GoodI), and prepare_goodI (the state prepare_eval produces from an idle GoodI machine is GoodI). REMAINING explicit hypotheses: ExtLaws and ExtGood (laws of the four non-modelled parameters for the simulation / for the invariant), CompGood (same for the compiler in prepare_eval), SizeBounded (every reachable heap has at most 2^62 cells: the one size hypothesis, a physical fact, not an invariant), StackDiscAlong (frame discipline of the current instruction in every reachable state: bp-relative reads at or below sp, complete frame at RET/TCALL, and the stack cells an instruction consumes as values are values not frame-header cells; a consequence of WF-stack once the verifier types bp-relative sources and temporaries - not yet connected). Plain is NOT an invariant of run_one over arbitrary bytecode/stacks (CONS of a frame-header cell, MOV through a Ptr operand break it on the model and on the real VM alike): hence the code discipline in GoodI (checked on every real lambda by the safe-side-conditions stream of C03) and StackDiscAlong. The _partial theorems are kept. ROUND 5 (WF-stack connected to the heap simulation): the bytecode verifier is VALUE-TYPED (abstract cells any | val | argc n: PUSHACC and PUSHIMM of a value push val, CONS pops two typed cells, CALL/TCALL need argc n over n typed cells, MOV never loads through a Ptr, MOVIMM loads a value, HALT is the last cell; 0 rejects on every real code object and on the compiler model's output) and WF-stack (Lemmas/StackWF*.lean) is re-proved for it for all 16 opcodes: val-typed temporaries, argument blocks and the argument cells of every frame hold values (IsValue = plainGlob, the notion of GoodI), acc holds a value, a frame has at least argNeed argument cells (ENTER compares argc with the formals of the code it runs). stackDisc_of_wfs (Lemmas/StackDiscOfWFS.lean) derives ALL SIX clauses of StackDisc from WFS (concreteLawsV ext ecl) s K; vmOk_reaches shows VmOk = GoodI /\ (WFS \/ halted) is an invariant of the REAL machine (run_one over concreteOps, run_gc = cgc): the guards of the machine the generic WF-stack theorem runs on (vops: guarded callee, value-guarded global/environment reads and VPUSH) are invisible on GoodI states (step_vops). The *_wf theorems restate the property WITHOUT StackDiscAlong: hypotheses = ExtLaws, ExtGood, ExtCodeLawsV (unmodelled builtins / eval compiler / VPUSH keep the value-typed code invariant CInvG IsValue), VmOk of the INITIAL state, SizeBounded, and CalleeOkAlong: at every reachable CALL/TCALL/ENTER site a closure / bare-lambda callee designates PROCEDURE code, not an entry lambda (oracle callee-ok of the C04 bytecode-verifier stream). CalleeOkAlong is NOT derived: it is a reachability fact (closures are built by CLOSURE from compile_lambda output; no value refers to an entry lambda) that needs two more heap-invariant clauses preserved by the unmodelled builtins. Non-vacuity: Demo.sHalt_vmOk. The safe-side-conditions stream also evaluates the value-typed frame of the current instruction on every real state (Driver/SimGood.typedCheck).",
     "technique": "Lean 4 proof (generic refinement of the run_count loop to a collection-free reference, any budgets) + differential sliced-vs-uninterrupted runs and loop-trace correspondence",
 }
 MODULE = "Marwood.Proofs.C13"
@@ -58,6 +58,23 @@ THEOREMS = [
     "Marwood.Lemmas.Sim.step_sim",
     "Marwood.Lemmas.Sim.execSim_all",
     "Marwood.Lemmas.Sim.sim_refl",
+    "Marwood.Proofs.C13.sliced_value_eq_uninterrupted_wf",
+    "Marwood.Proofs.C13.sliced_error_eq_uninterrupted_wf",
+    "Marwood.Lemmas.Good.stackDisc_of_wfs",
+    "Marwood.Lemmas.Good.step_vops",
+    "Marwood.Lemmas.Good.vmOk_step",
+    "Marwood.Lemmas.Good.vmOk_gc",
+    "Marwood.Lemmas.Good.vmOk_reaches",
+    "Marwood.Lemmas.Good.wfs_reaches",
+    "Marwood.Lemmas.Good.stackDiscAlong_of_wfs",
+    "Marwood.Lemmas.Good.safe_of_vmOk",
+    "Marwood.Vm.Concrete.concreteLawsV",
+    "Marwood.Vm.Concrete.cgc_gcLawsV",
+    "Marwood.Vm.step_preserves",
+    "Marwood.Vm.step_wr",
+    "Marwood.Lemmas.Good.Demo.sHalt_vmOk",
+    "Marwood.Lemmas.Good.Demo.sHalt_calleeOkAlong",
+    "Marwood.Proofs.C13.failingExt_codeLawsV",
 ]
 
 
